@@ -110,7 +110,12 @@ def generate(rng, tier):
             ops.append({"op": "clear", "h": h, "s": s})
         else:
             ops.append({"op": "copy", "h": h, "s": s, "to": rng.randrange(NS)})
-    return {"n0": n0, "ops": ops}
+    case = {"n0": n0, "ops": ops}
+    if rng.random() < 0.02:
+        # the same selections at sizes where libraries switch code paths
+        case["big"] = {"n": rng.choice([70000, 131073, 200000]), "seed": rng.getrandbits(30),
+                       "sel": rng.choice(["mask", "mask-array", "ints", "ints-neg", "slice-step", "slice-neg", "sortby-key", "sortby-index", "argsort"])}
+    return case
 
 
 def describe(case):
@@ -212,11 +217,79 @@ class Slot:
         return next(iter(self.m.values()))["comps"][0].shape
 
 
+def big_scenario(bg, osy, viol, stats):
+    """One selection / sort on a group of three members (float Array, int Array, 3-component Vector) with ~10^5 rows,
+    against numpy fancy indexing."""
+    op = {"op": "big", "big": bg}
+    stats.inc("probe.large_group_scenario=" + bg["sel"])
+
+    def V(clause, detail):
+        viol.append({"class": "row-alignment", "clause": clause, "key": {"op": "big", "clause": clause, "idx": bg["sel"]}, "detail": dict(detail, step=0, op=op)})
+
+    try:
+        n = bg["n"]
+        g = np.random.default_rng(bg["seed"])
+        row = np.arange(n, dtype=np.int64)
+        a = g.permutation(n).astype(np.float64) + 0.5
+        comps = [row * 3.0 + c for c in range(3)]
+        dg = osy.Datagroup()
+        dg["a"] = osy.Array(values=a.copy(), unit="cm")
+        dg["r"] = osy.Array(values=row.copy(), unit="")
+        dg["v"] = osy.Vector(*[c.copy() for c in comps], unit="cm/s")
+        s = bg["sel"]
+        if s in ("mask", "mask-array"):
+            ni = g.random(n) < 0.37
+            oi = ni.copy() if s == "mask" else osy.Array(values=ni.copy())
+        elif s in ("ints", "ints-neg"):
+            ni = g.integers(-n if s == "ints-neg" else 0, n, size=n // 3)
+            oi = ni.copy()
+        elif s == "slice-step":
+            ni = oi = slice(5, n - 7, 3)
+        elif s == "slice-neg":
+            ni = oi = slice(None, None, -2)
+        elif s == "argsort":
+            oi = np.argsort(dg["a"])
+            ni = np.asarray(oi.values if isinstance(oi, osy.Array) else oi).astype(np.int64)
+            if not np.array_equal(a[ni], np.sort(a)):
+                return
+        else:
+            ni = np.argsort(a, kind="stable")
+            oi = None
+        if s == "sortby-key":
+            dg.sortby("a")
+            out = dg
+        elif s == "sortby-index":
+            dg.sortby(ni.copy())
+            out = dg
+        else:
+            out = dg[oi]
+        want = {"a": [a[ni]], "r": [row[ni]], "v": [c[ni] for c in comps]}
+        if list(out.keys()) != ["a", "r", "v"]:
+            V("index-keys", {"keys": list(out.keys())})
+            return
+        for k, ws in want.items():
+            got = observed(out[k])
+            if len(got) != len(ws) or any(x.shape != y.shape or not np.array_equal(x, y) for x, y in zip(got, ws)):
+                V("values", {"key": k, "n": n, "rows_got": [int(x.shape[0]) if x.ndim else -1 for x in got], "rows_want": int(ws[0].shape[0])})
+                return
+        if out["a"].unit != osy.units("cm") or out["v"].unit != osy.units("cm/s"):
+            V("unit", {"a": str(out["a"].unit), "v": str(out["v"].unit)})
+    except HarnessError:
+        raise
+    except Exception as e:
+        V("exception", {"error": f"{type(e).__name__}: {e}"[:300]})
+
+
 def execute(case, stats):
     import osyris as osy
 
     viol = []
     res = {"violations": viol, "nontrivial": False}
+    if case.get("big"):
+        big_scenario(case["big"], osy, viol, stats)
+        if viol:
+            res["signature"] = core.digest(case)[:20]
+            return res
     slots = [Slot(osy) for _ in range(NS)]
     nontrivial = False
     bufs = {}  # the caller's reusable index buffers
@@ -486,10 +559,15 @@ def execute(case, stats):
 
 
 def measure(case):
-    return (len(case["ops"]), case["n0"], sum(1 for o in case["ops"] if o["op"] == "index" and o["idx"].get("reuse")), len(core.dumps(case["ops"])))
+    return (len(case["ops"]) + (1000 if case.get("big") else 0), case["n0"], sum(1 for o in case["ops"] if o["op"] == "index" and o["idx"].get("reuse")), len(core.dumps(case["ops"])))
 
 
 def reductions(case, viol):
+    if case.get("big"):
+        c = dict(case)
+        del c["big"]
+        yield c
+        yield dict(case, ops=[])
     yield from list_reductions(case, "ops")
     for n in (2, 3, case["n0"] - 1):
         if 0 <= n < case["n0"]:
